@@ -74,6 +74,10 @@ impl<M: Clone> Outbound<M> {
     pub fn closed(&self) -> bool {
         self.0.lock().unwrap().closed
     }
+
+    pub fn broken(&self) -> bool {
+        self.0.lock().unwrap().broken
+    }
 }
 
 impl<M: Clone> Sink<M> for Outbound<M> {
